@@ -66,14 +66,14 @@ const c36Rule = "sequences of 2-4 configurations; the first drawn from the gramm
 
 type c36NullLog struct{}
 
-func (c36NullLog) Errorf(string, ...interface{})            {}
-func (c36NullLog) Infof(string, ...interface{})             {}
-func (c36NullLog) Debugf(string, ...interface{})            {}
-func (c36NullLog) Error(string)                             {}
-func (c36NullLog) Info(string)                              {}
-func (c36NullLog) Debug(string)                             {}
+func (c36NullLog) Errorf(string, ...interface{})             {}
+func (c36NullLog) Infof(string, ...interface{})              {}
+func (c36NullLog) Debugf(string, ...interface{})             {}
+func (c36NullLog) Error(string)                              {}
+func (c36NullLog) Info(string)                               {}
+func (c36NullLog) Debug(string)                              {}
 func (c36NullLog) WithFields(log.Fields) log.LoggerInterface { return c36NullLog{} }
-func (c36NullLog) WithError(error) log.LoggerInterface      { return c36NullLog{} }
+func (c36NullLog) WithError(error) log.LoggerInterface       { return c36NullLog{} }
 
 // ---------------------------------------------------------------------------
 // environment shared by all cases of a test function: one VRF registry with
@@ -300,7 +300,7 @@ func (f *c36Fake) GetRIBIn(*vrf.VRF, *bnet.IP, uint16, uint8) *adjRIBIn.AdjRIBIn
 func (f *c36Fake) GetRIBOut(*vrf.VRF, *bnet.IP, uint16, uint8) *adjRIBOut.AdjRIBOut {
 	return nil
 }
-func (f *c36Fake) GetDefaultVRF() *vrf.VRF                { return f.env.defVRF }
+func (f *c36Fake) GetDefaultVRF() *vrf.VRF                 { return f.env.defVRF }
 func (f *c36Fake) SetListenerManager(tcp.ListenerManagerI) {}
 
 var _ bgpserver.BGPServer = (*c36Fake)(nil)
